@@ -163,9 +163,9 @@ def pure_hostile(rep, wd, rng, quick):
         if g.get("panic") is not None:
             rep.violation(f"pure:detect:{x!r}", f"Directive::detect_from panicked on {x!r}: {g['panic'][:300]}", dict(line=x))
     calls += len(lines)
-    names = ["", "a", "é", "—", "éa", "aé", "😀", " ", "ab", "b\u00a0"]
+    names = ["", "a", "é", "—", "éa", "aé", "😀", " ", "ab", "b\u00a0", "b", "ba", "é—", "—a"]
     contents = ["", "é", "a\né", "—\r\n", "\n", "😀", "x\r", "\r\n\r\n", "é" * 50]
-    tlines = ["", "é", "aé—", "x a é", "😀😀", "—a—", "ab aé", "\u00a0", "a" * 40 + "é"]
+    tlines = ["", "é", "aé—", "x a é", "😀😀", "—a—", "ab aé", "\u00a0", "a" * 40 + "é", "aba", "bab", "aé—a", "xab"]
     sess = []
     for _ in range(3000 if quick else 40000):
         steps = []
